@@ -8,6 +8,17 @@ from qce_circuit.utilities.array_manipulation import unique_in_order
 CH = {c.name: c for c in QubitChannel}
 
 
+class Tok:
+    def __init__(self, v, i):
+        self.v, self.i = v, i
+
+    def __eq__(self, other):
+        return isinstance(other, Tok) and self.v == other.v
+
+    def __hash__(self):
+        return hash(self.v)
+
+
 def handle(c):
     k = c['k']
     if k == 'chan':
@@ -23,7 +34,10 @@ def handle(c):
         return {'eq': bool(e == f), 'contains': bool(f.contains(QubitIDObj(c['a']))), 'h1': hash(e), 'h2': hash(f),
                 'in_set': bool(e in {f}), 'in_dict': bool(e in {f: 1})}
     if k == 'uniq':
-        return {'r': unique_in_order(list(c['l']))}
+        # pairwise distinct objects whose equality (and hash) is the given number: which OBJECT is returned is observed
+        items = [Tok(v, i) for i, v in enumerate(c['l'])]
+        out = unique_in_order(items)
+        return {'r': [t.v for t in out], 'pos': [t.i for t in out]}
     raise ValueError(k)
 
 
